@@ -319,6 +319,27 @@ theorem attachLogger_noninterference_observables (m : Mach U) (l : List LOp) :
   · simpa [Mach.recfg, World.recfg, detach] using h5
   · simpa [Mach.recfg, World.recfg, detach] using h6
 
+/-- While the logger is detached (`attachLogger(nullptr)`) an operation appends callbacks only: no record of any kind. -/
+theorem no_records_while_detached (m : Mach U) (o : Api.Op)
+    (herr : (Api.step (m.attachLogger false) o).w.err = none) :
+    ∃ evs : List (Event U), (∀ e ∈ evs, ∃ x, e.cb? = some x) ∧
+      (Api.step (m.attachLogger false) o).w.trace = evs.reverse ++ m.w.trace := by
+  obtain ⟨items, hok, ht⟩ := log_mirrors_callbacks (m.attachLogger false) o herr
+  exact ⟨itemsEvents false items, no_records_without_logger m.w.cfg.verbose items hok, ht⟩
+
+/-- Re-attached (`attachLogger(&logger)`), the records resume at once: what the next operation appends is again a
+well-formed list of callback groups headed by their method records, whatever the attachment was before. -/
+theorem records_resume_when_attached (m : Mach U) (o : Api.Op)
+    (herr : (Api.step (m.attachLogger true) o).w.err = none) :
+    ∃ items : List (Item U), (∀ i ∈ items, i.ok true m.w.cfg.verbose) ∧
+      (Api.step (m.attachLogger true) o).w.trace = (itemsEvents true items).reverse ++ m.w.trace :=
+  log_mirrors_callbacks (m.attachLogger true) o herr
+
+-- non-vacuity of the two statements above: a detached / attached demonstration machine runs an update without contract violation
+example : (Api.step ((Api.boot Demo.shape Demo.cfg Demo.ds ([] : List Demo.DU)).attachLogger false) .update).w.err = none ∧
+    (Api.step ((Api.boot Demo.shape Demo.cfg Demo.ds ([] : List Demo.DU)).attachLogger true) .update).w.err = none := by
+  decide +kernel
+
 -- non-vacuity: the demonstration machine, logger detached before the first update and re-attached after it
 example : (runL (Api.boot Demo.shape Demo.cfg Demo.ds ([] : List Demo.DU))
       [.attach false, .op .update, .attach true, .op .update]).w.cfg.logging = true := by
@@ -445,7 +466,8 @@ Property theorems (for Props/INDEX.json):
   (b) logging_noninterference, logging_noninterference_run, logging_noninterference_boot,
       logging_noninterference_observables, logging_modes_agree
   (b') attachLogger_detach, attachLogger_frame, attachLogger_noninterference_run,
-      attachLogger_positions_irrelevant, attachLogger_noninterference_observables
+      attachLogger_positions_irrelevant, attachLogger_noninterference_observables,
+      no_records_while_detached, records_resume_when_attached
   (c) structure_report_fresh, structure_report, structure_report_replay, structure_report_run,
       report_refreshed_at_most_once, refresh_enter, refresh_exit, refresh_reset, refresh_immediate,
       refresh_update, refresh_react, no_refresh_request, no_refresh_setTask, no_refresh_planAppend,
